@@ -2,7 +2,7 @@
 # usage: tools/seed_regress.sh  -- every stored seed against the quick tier of its property; expects exit 1 + VIOLATION each time
 cd /verif
 for d in seeded/*/; do
-  id=$(basename $d); c=${id%%-*}
+  id=$(basename $d); c=$(python3 -c "import json,sys;print(json.load(open(sys.argv[1]))[\"detected_by\"][\"check\"])" $d/meta.json)
   git -C /repo diff --quiet || { echo "/repo not clean"; exit 9; }
   git -C /repo apply /verif/$d/patch.diff || { echo "$id: patch does not apply"; continue; }
   s=$(date +%s)
